@@ -365,6 +365,23 @@ def single_path_fn(ctx, f, rep, fn, state, notif, rule='C08-R5'):
               % (state, notif or 'nothing'), site=b.raw['span'], construct='pairing')
 
 
+def exact_zero_split(p):
+    """Every test on the number of active members on this path splits at zero exactly (x == 0 | x > 0), not at one."""
+    term = q.num_active_term(p)
+    for c in p.conds():
+        e, t = q.norm_bool(c)
+        if e[0] != 'binop' or not (term(e[2]) or term(e[3])):
+            continue
+        k = e[3] if term(e[2]) else e[2]
+        k = q.peel(k)
+        if k[0] != 'const' or k[2] is None:
+            return False
+        op = e[1] if term(e[2]) else {'Gt': 'Lt', 'Ge': 'Le', 'Lt': 'Gt', 'Le': 'Ge', 'Eq': 'Eq', 'Ne': 'Ne'}[e[1]]
+        if (op, k[2]) not in (('Eq', 0), ('Ne', 0), ('Gt', 0), ('Le', 0), ('Ge', 1), ('Lt', 1)):
+            return False
+    return True
+
+
 def r5_state_machine(ctx, f, rep, eff):
     rep.rule('C08-R5', 'connection_state is written only by become_connected (->Connected, Active), become_disconnected '
                        '(->Disconnected, Idle), become_undead (->Undead, Defunct) and reset (->Disconnected, silent); '
@@ -399,6 +416,11 @@ def r5_state_machine(ctx, f, rep, eff):
         n += 1
         rep.check(tr == want, 'C08-R5', b.nname, 'state %s, num_active %s -> %s' % (sorted(st or []), na, want or 'no transition'),
                   construct='adjust:%s:%s' % (sorted(st or []), na), facts={'transitions': tr})
+        if st in ({'Disconnected'}, {'Connected'}):
+            # the table is exact: the only thing consulted is whether the number of active members is zero (a threshold
+            # of two would leave an instance with a single peer idle for ever)
+            rep.check(na in ('pos', 'zero') and exact_zero_split(p), 'C08-R5', b.nname, 'the connection state follows "is there any '
+                      'active member": the test is num_active == 0 / > 0 and nothing else', construct='adjust-exact:%s' % sorted(st))
     rep.floor('C08-R5', n, 5, 'adjust_connection_state paths')
     for fn, want in (('Foca::adjust_connection_state', ['Foca::apply_many', 'Foca::handle_timer']),
                      ('Foca::become_connected', ['Foca::adjust_connection_state']),
@@ -518,7 +540,7 @@ def r6_reevaluate(ctx, f, rep):
 def r7_accumulating(ctx, f, rep):
     rep.rule('C08-R7', 'AccumulatingRuntime is three FIFOs: each Runtime method does one push_back on its own queue, each '
                        'to_* accessor one pop_front on the same queue; notify stores to_owned() (identity on variant '
-                       'names); send_to stores exactly the bytes given')
+                       'names and on the order of their payloads); send_to stores exactly the bytes given')
     AR = 'runtime::AccumulatingRuntime'
     pairs = [('<%s as runtime::Runtime>::notify' % AR, 'notifications', AR + '::to_notify'),
              ('<%s as runtime::Runtime>::send_to' % AR, 'to_send', AR + '::to_send'),
@@ -569,9 +591,31 @@ def r7_accumulating(ctx, f, rep):
                 vs = cv if vs is None else vs & cv
         if vs and len(vs) == 1:
             seen[next(iter(vs))] = q.variant_name(p.ret)
+            # payload i of the owned variant is (a clone of) payload i of the borrowed one
+            if p.ret[0] == 'agg':
+                for i, v in zip(p.ret[4], p.ret[5]):
+                    src = payload_source(v)
+                    rep.check(src is not None and src[1] == ('param', 0, 1) and src[2] == i and src[3] == p.ret[3],
+                              'C08-R7', b.nname, 'to_owned: field %s of the owned %s is field %s of the borrowed one'
+                              % (i, p.ret[3], i), construct='to_owned:%s.%s' % (p.ret[3], i),
+                              facts={'value': repr(v)[:200]})
     allv = set(f.variant_names(NOTIF))
     rep.check(set(seen) == allv and all(k == v for k, v in seen.items()), 'C08-R7', b.nname,
               'to_owned maps every variant to the variant of the same name', construct='to_owned', facts=seen)
+
+
+def payload_source(v):
+    """The ('fieldv', base, idx, variant) a value is a copy/clone/reborrow of, else None."""
+    for _ in range(8):
+        if not isinstance(v, tuple) or not v:
+            return None
+        if v[0] == 'fieldv':
+            return v
+        if v[0] in ('load', 'deref', 'ref', 'cast'):
+            v = v[1]
+        else:
+            return None
+    return None
 
 
 def check(ctx):
